@@ -227,8 +227,59 @@ func emptyOps() map[string]any {
 	return map[string]any{"nh": []any{}, "nhg": []any{}, "top": []any{}}
 }
 
+// Structured generates a case in which both RIBs hold the chain NH 1 <- NHG 1 in two instances and a
+// top-level entry whose group reference differs between target and intended (other group id, same id in the
+// other instance), the intended RIB optionally lacking the group the target's entry used.
+func Structured(rng *rand.Rand) []Input {
+	nis := []string{ribdrv.DefaultNI, "vrf1", "vrf2"}
+	ins := []Input{{Ph: "init", NIs: nis, TOnly: []string{}}}
+	var id uint64
+	add := func(ph string, o abs.Op) {
+		id++
+		o.ID, o.Typ, o.NoEID = id, "ADD", true
+		if o.NHs == nil {
+			o.NHs = []string{}
+		}
+		ins = append(ins, Input{Ph: ph, Op: &o})
+	}
+	kind := []string{"v4", "v6", "mpls"}[rng.Intn(3)]
+	topNI := nis[rng.Intn(2)]
+	gnis := []string{"", nis[0], nis[1]}
+	tg, ig := gnis[rng.Intn(3)], gnis[rng.Intn(3)]
+	tG, iG := fmt.Sprint(1+rng.Intn(2)), fmt.Sprint(1+rng.Intn(2))
+	dropOld := rng.Intn(2) == 0
+	oldNI := tg
+	if oldNI == "" {
+		oldNI = topNI
+	}
+	build := func(ph string, g, gni string) {
+		for _, ni := range nis[:2] {
+			add(ph, abs.Op{NI: ni, Kind: "nh", Key: "1", PL: "a"})
+			for _, gid := range []string{"1", "2"} {
+				if ph == "I" && dropOld && ni == oldNI && gid == tG && !(ni == func() string {
+					if gni == "" {
+						return topNI
+					}
+					return gni
+				}() && gid == g) {
+					continue // the intended RIB no longer has the group the target's entry pointed at
+				}
+				add(ph, abs.Op{NI: ni, Kind: "nhg", Key: gid, PL: abs.NHGPayloads[0], NHs: []string{"1"}})
+			}
+		}
+		add(ph, abs.Op{NI: topNI, Kind: kind, Key: "k1", PL: abs.TopPayloads[0], G: g, GNI: gni})
+	}
+	build("T", tG, tg)
+	ins = append(ins, Input{Ph: "freeze", Scratch: true})
+	build("I", iG, ig)
+	return ins
+}
+
 // Random generates a reconcile case over a larger universe.
 func Random(rng *rand.Rand) []Input {
+	if rng.Intn(4) == 0 {
+		return Structured(rng)
+	}
 	nis := []string{ribdrv.DefaultNI, "vrf1", "vrf2"}
 	tonly := []string{}
 	if rng.Intn(2) == 0 {
@@ -270,6 +321,13 @@ func Random(rng *rand.Rand) []Input {
 					}
 				default:
 					o.PL = abs.TopPayloads[rng.Intn(len(abs.TopPayloads))]
+					// ... or points at another group, or at the same group id in another instance
+					switch rng.Intn(4) {
+					case 0:
+						o.G = fmt.Sprint(1 + rng.Intn(2))
+					case 1:
+						o.GNI = []string{"", nis[0], nis[1]}[rng.Intn(3)]
+					}
 				}
 				if !isT[o.NI] {
 					oo := o
